@@ -84,6 +84,11 @@ K_STR2INT = [
 # _mm_sub_epi8 (wrapping in hardware) as overflow -> not registered; stated in DESIGN.md.
 
 
+K_NUMBER = [
+    K("parse_number_zero_sign", "every zero-valued literal of <= 8 bytes over {0 . e E + -}: Unsigned(0) or a float zero with the literal's sign; zero literals never reach parse_float",
+      ["sonic_number::parse_number"], package="sonic-number", kind="bounded(literal length <= 8)"),
+]
+
 PROPS = {}
 
 PROPS["C08"] = {
@@ -124,10 +129,6 @@ PROPS["C14"] = {
     "explanation": "skip_one: Ok((slice,_)) ==> slice == data[p..e) with value_end == Some(e)",
 }
 
-K_NUMBER = [
-    K("parse_number_zero_sign", "every zero-valued literal of <= 8 bytes over {0 . e E + -}: Unsigned(0) or a float zero with the literal's sign; zero literals never reach parse_float",
-      ["sonic_number::parse_number"], package="sonic-number", kind="bounded(literal length <= 8)"),
-]
 
 PROPS["C07"] = {
     "level": "proof",
